@@ -141,6 +141,14 @@ func HarnessC16NoClobber() {
 	err := w.Flush()
 	verifAssert(err != nil, "C16: Flush onto an existing output path must fail")
 	verifAssert(verifFileVersion(path) == before, "C16: Flush changed a pre-existing file")
+	// a retry on the same writer, and a second writer, meet the same refusal
+	err = w.Flush()
+	verifAssert(err != nil, "C16: a repeated Flush onto an existing output path must fail")
+	verifAssert(verifFileVersion(path) == before, "C16: a repeated Flush changed a pre-existing file")
+	w2 := NewIndexWriter(path)
+	w2.AddRow(map[string]string{"d": "w"})
+	verifAssert(w2.Flush() != nil, "C16: Flush onto an existing output path must fail")
+	verifAssert(verifFileVersion(path) == before, "C16: Flush changed a pre-existing file")
 	verifAssert(!verifFlockHeld(path) || kind < 3, "C16: a failed Flush left the file locked")
 	verifReach("end")
 }
